@@ -52,7 +52,7 @@ TIERS = {
     "thorough": dict(set_sizes=[2, 3], hist_depth=2, tree=True, bfs_depth=8, bfs_cap=800, seed_chunk=7),
 }
 
-RULE = ("events = 19 public-API operations on shared module-level decorator/pass/rule objects (each builds its "
+RULE = ("events = 29 public-API operations on shared module-level decorator/pass/rule objects (each builds its "
         "input afresh). Enumerated: (seed) every event x every PYTHONHASHSEED of a pool found by search so that "
         "every iteration order of every <=2 (quick) / <=3 (thorough) subset of the scripts' variable names is "
         "realised, one fresh process each; (family) every subset-script x every pool seed; (hist) ALL histories "
@@ -73,8 +73,9 @@ RULE = ("events = 19 public-API operations on shared module-level decorator/pass
         "histories (quick: enumeration order forward and backward; thorough: also with the first dimensions varying fastest), against fork-fresh goldens")
 ASSUMPTIONS = [
     "the golden of an event is its output as the first event of a fresh interpreter under PYTHONHASHSEED=0",
-    "fork() gives a child an exact copy of the interpreter state (tree/bfs phases only; cross-checked per job "
-    "against an in-process execution; the hist phase does not fork)",
+    "fork() gives a child an exact copy of the interpreter state (tree/bfs phases: cross-checked per job "
+    "against an in-process execution; rules/cross/fusions phases: goldens and chains both run in children forked from a "
+    "parent that never applies a rule; the hist phase does not fork)",
     "the canonical key observes Python-level state only; C-level caches of onnx/onnxruntime are outside",
     "seed-pool coverage of set orders is computed on list(set(names)) in a bare interpreter of the same binary",
 ]
